@@ -539,6 +539,7 @@ class StmtMixin:
             self.effect("except-handler", self.site_of(h, fr), sh, fr,
                         types=ast.unparse(h.type) if h.type is not None else "BaseException",
                         reraises=reraises, only_pass=all(isinstance(b, ast.Pass) for b in h.body),
+                        body_lines=(s.body[0].lineno, max(getattr(b, "end_lineno", b.lineno) for b in s.body)),
                         func=fr.func.qualname if fr.func else "<module>")
             fh = self.exec_block(h.body, fr, sh)
             if fh:
